@@ -483,28 +483,28 @@ func (c *Ctx) finish(verifDir string, info propInfo, replayOnly string) int {
 		"violations":  len(viol),
 		"assumptions": info.Assumptions,
 		"coverage": map[string]any{
-			"explanation":          info.Explanation,
-			"not_decided":          info.NotDecided,
-			"obligations":          total,
-			"discharged":           nOK,
-			"known_findings":       len(knownHit),
-			"violated":             len(viol),
-			"undecided":            c.Undecided,
-			"evaluations":          max(total, 1),
-			"distinct_nontrivial":  total,
-			"rule":                 "each obligation is a distinct (rule, construct) instance enumerated from the type-checked program of /repo's working tree; all are non-trivial (an instance exists only when the rule's anchor matched real code)",
-			"rules":                rules,
-			"samples":              samples,
-			"checker_cmd":          fmt.Sprintf("bin/amcheck -prop %s -tier %s", c.Prop, c.Tier),
-			"trusted_base":         info.Trusted,
-			"packages_analysed":    len(c.Pkgs),
-			"package_list":         pk,
-			"files_analysed":       c.Files,
-			"functions_analysed":   len(c.Funcs),
-			"notes":                c.Notes,
-			"exhaustive":           true,
-			"replay_files":         replays,
-			"technique":            "static analysis over go/types + go/ssa of the working tree; no code from /repo is executed",
+			"explanation":         info.Explanation,
+			"not_decided":         info.NotDecided,
+			"obligations":         total,
+			"discharged":          nOK,
+			"known_findings":      len(knownHit),
+			"violated":            len(viol),
+			"undecided":           c.Undecided,
+			"evaluations":         max(total, 1),
+			"distinct_nontrivial": total,
+			"rule":                "each obligation is a distinct (rule, construct) instance enumerated from the type-checked program of /repo's working tree; all are non-trivial (an instance exists only when the rule's anchor matched real code)",
+			"rules":               rules,
+			"samples":             samples,
+			"checker_cmd":         fmt.Sprintf("bin/amcheck -prop %s -tier %s", c.Prop, c.Tier),
+			"trusted_base":        info.Trusted,
+			"packages_analysed":   len(c.Pkgs),
+			"package_list":        pk,
+			"files_analysed":      c.Files,
+			"functions_analysed":  len(c.Funcs),
+			"notes":               c.Notes,
+			"exhaustive":          true,
+			"replay_files":        replays,
+			"technique":           "static analysis over go/types + go/ssa of the working tree; no code from /repo is executed",
 		},
 	}
 	b, _ := json.MarshalIndent(ev, "", " ")
